@@ -29,7 +29,9 @@ func c18AckWindowCase(kind, change string, hold time.Duration, holdOnlyAck bool)
 	s.AddTool(&Tool{Name: "t1", InputSchema: map[string]any{"type": "object"}}, noop)
 	s.AddPrompt(&Prompt{Name: "p0"}, func(context.Context, *GetPromptRequest) (*GetPromptResult, error) { return &GetPromptResult{}, nil })
 	s.AddPrompt(&Prompt{Name: "p1"}, func(context.Context, *GetPromptRequest) (*GetPromptResult, error) { return &GetPromptResult{}, nil })
-	rh := func(context.Context, *ReadResourceRequest) (*ReadResourceResult, error) { return &ReadResourceResult{}, nil }
+	rh := func(context.Context, *ReadResourceRequest) (*ReadResourceResult, error) {
+		return &ReadResourceResult{}, nil
+	}
 	s.AddResource(&Resource{Name: "r0", URI: "file:///r0"}, rh)
 	s.AddResource(&Resource{Name: "r1", URI: "file:///r1"}, rh)
 	s.AddSendingMiddleware(func(next MethodHandler) MethodHandler {
